@@ -11,6 +11,7 @@ package main
 // RequestFormatter from reflectively generated bodies.
 
 import (
+	"os"
 	"strings"
 	"bytes"
 	"context"
@@ -270,6 +271,26 @@ func TestVF_C11_Broker(t *testing.T) {
 	} else {
 		_ = c.Close()
 	}
+	// the same handler behind a listener with PROXY protocol on (cmd/broker's own wiring)
+	_ = os.Setenv("KAFSCALE_PROXY_PROTOCOL", "true")
+	ccf := buildConnContextFunc(testLogger())
+	_ = os.Unsetenv("KAFSCALE_PROXY_PROTOCOL")
+	if ccf == nil {
+		t.Fatalf("HARNESS: buildConnContextFunc returned nil with KAFSCALE_PROXY_PROTOCOL=true")
+	}
+	paddr, err := vfc11kit.PickPort()
+	if err != nil {
+		fmt.Println("VF-INCONCLUSIVE: cannot reserve a loopback port:", err)
+		t.Fatalf("port: %v", err)
+	}
+	psrv := &broker.Server{Addr: paddr, Handler: sw, ConnContextFunc: ccf}
+	go func() { _ = psrv.ListenAndServe(ctx) }()
+	if c, err := vfc11kit.DialRetry(paddr); err != nil {
+		fmt.Println("VF-INCONCLUSIVE: PROXY-protocol listener did not come up on", paddr, err)
+		t.Fatalf("dial: %v", err)
+	} else {
+		_ = c.Close()
+	}
 	brokerInfo := protocol.MetadataBroker{NodeID: 1, Host: "127.0.0.1", Port: 19092}
 	env := c11Env()
 	known := vfkit.Known(c11FindingLivelock)
@@ -294,7 +315,15 @@ func TestVF_C11_Broker(t *testing.T) {
 		h := newHandler(store, storage.NewMemoryS3Client(), brokerInfo, testLogger())
 		defer h.coordinator.Stop()
 		sw.cur.Store(h)
-		conn, err := vfc11kit.DialRetry(addr)
+		listener, target := "plain", addr
+		var proxyHeader []byte
+		if rapid.IntRange(0, 3).Draw(t, "proxy-listener") == 0 {
+			listener, target = "proxy-protocol", paddr
+			var hk string
+			proxyHeader, hk = c11GenProxyHeader(t)
+			listener += ":" + hk
+		}
+		conn, err := vfc11kit.DialRetry(target)
 		if err != nil {
 			inconclusive = "cannot connect to the broker under test: " + err.Error()
 			t.Skip(inconclusive)
@@ -325,7 +354,11 @@ func TestVF_C11_Broker(t *testing.T) {
 				}
 			}
 			p.Encode()
-			out := vfc11kit.Exchange(conn, p, 30*time.Second)
+			if i == 0 {
+				p.Prefix = proxyHeader // header and first request in one write
+			}
+			st.Class("listener:" + listener)
+			out := vfc11kit.Exchange(conn, p, 60*time.Second)
 			hres, handled := sw.take(p.Corr)
 			if store.tripped.Load() {
 				t.Fatalf("%s (%s): the handler called store.NextOffset more than %d times for one connection of <=3 requests: it loops on the metadata store and, without the harness's call budget, never answers\nshape=%s frame=%x", p.Name(), p.Class, store.limit, p.Shape, c11Clip(p.Frame))
@@ -349,9 +382,11 @@ func TestVF_C11_Broker(t *testing.T) {
 					st.Class(fmt.Sprintf("unavailable-key-%02d", p.Key))
 				}
 			}
-			if out.Kind == "timeout" {
-				inconclusive = fmt.Sprintf("no answer to %s (%s) within the 30s guard (%v) shape=%s frame=%x", p.Name(), p.Class, out.Err, p.Shape, p.Frame)
-				t.Skip(inconclusive)
+			if out.Kind == "request-lost" || out.Kind == "silent" {
+				// "gets a reply": pipelined behind the probe in the same write, the sentinel is a request
+				// like any other. request-lost is evidence by order (a LATER request of the connection
+				// was answered); silent means the connection stayed open without a frame for 70 s.
+				t.Fatalf("%s (%s, listener %s): %s: %v\nshape=%s prefix=%x frame=%x", p.Name(), p.Class, listener, out.Kind, out.Err, p.Shape, p.Prefix, c11Clip(p.Frame))
 			}
 			if handled && hres.panicked != nil {
 				t.Fatalf("%s (%s): handler panicked: %v\nshape=%s frame=%x", p.Name(), p.Class, hres.panicked, p.Shape, c11Clip(p.Frame))
@@ -371,6 +406,12 @@ func TestVF_C11_Broker(t *testing.T) {
 					t.Fatalf("%s is advertised but the connection was closed without a reply (%v)\nshape=%s frame=%x", p.Name(), out.Err, p.Shape, c11Clip(p.Frame))
 				}
 			case "reply", "reply-then-closed":
+				if p.Advertised && !handled {
+					// every advertised key must be dispatched: a well-formed request of an advertised
+					// version that is answered without ever reaching the Handler got the server's generic
+					// fallback, not that API's own answer
+					t.Fatalf("%s is advertised and was answered, but the request never reached the handler (generic server-side reply)\nshape=%s frame=%x reply=%x", p.Name(), p.Shape, c11Clip(p.Frame), c11Clip(out.Reply))
+				}
 				if p.Acks0 && out.Kind == "reply" {
 					// A client that produced with acks=0 reads no response. A frame written anyway stays in
 					// the stream and is taken for the reply to the NEXT request of the connection (wrong
@@ -402,7 +443,7 @@ func TestVF_C11_Broker(t *testing.T) {
 				idform = "topic-ids"
 				st.Class("topic-ids")
 			}
-			if st.NonTrivial(p.Key, p.Version, p.Class, mode, fl, idform, p.Shape.String(), out.Kind) {
+			if st.NonTrivial(p.Key, p.Version, p.Class, mode, listener, fl, idform, p.Shape.String(), out.Kind) {
 				st.Sample(map[string]any{"api": p.Name(), "class": p.Class, "mode": mode, "shape": p.Shape.String(), "outcome": out.Kind})
 			}
 			if out.Kind == "closed" || out.Kind == "reply-then-closed" {
@@ -500,6 +541,55 @@ func TestVF_C11_WitnessMemberID(t *testing.T) {
 	st.NonTrivial("witness-memberid", msg != "")
 	st.Sample(map[string]any{"result": what})
 	t.Log(what)
+}
+
+// c11GenProxyHeader: a valid PROXY header as a load balancer in front of the broker sends it
+// (v1, v2 TCP4/TCP6 with 0-3 TLVs of the kinds seen in the field, v2 LOCAL).
+func c11GenProxyHeader(t *rapid.T) ([]byte, string) {
+	sig := []byte{'\r', '\n', '\r', '\n', 0x00, '\r', '\n', 'Q', 'U', 'I', 'T', '\n'}
+	v2 := func(verCmd, famProto byte, payload []byte) []byte {
+		h := append(append([]byte(nil), sig...), verCmd, famProto, byte(len(payload)>>8), byte(len(payload)))
+		return append(h, payload...)
+	}
+	tlvs := func() ([]byte, string) {
+		var out []byte
+		n := rapid.IntRange(0, 3).Draw(t, "tlvs")
+		for i := 0; i < n; i++ {
+			var typ byte
+			var val []byte
+			switch rapid.IntRange(0, 3).Draw(t, "tlv-kind") {
+			case 0: // PP2_TYPE_NOOP padding
+				typ, val = 0x04, make([]byte, rapid.IntRange(0, 20).Draw(t, "noop-len"))
+			case 1: // PP2_TYPE_AUTHORITY
+				typ, val = 0x02, []byte("broker.kafka.example.com")
+			case 2: // PP2_TYPE_AWS: subtype VPC endpoint id
+				typ, val = 0xEA, append([]byte{0x01}, "vpce-08d2bf15fac5001c9"...)
+			default: // PP2_TYPE_CRC32C / unique id
+				typ, val = 0x05, rapid.SliceOfN(rapid.Byte(), 1, 16).Draw(t, "tlv-val")
+			}
+			out = append(out, typ, byte(len(val)>>8), byte(len(val)))
+			out = append(out, val...)
+		}
+		if n == 0 {
+			return nil, ""
+		}
+		return out, "+tlv"
+	}
+	switch rapid.IntRange(0, 4).Draw(t, "proxy-header") {
+	case 0:
+		return []byte("PROXY TCP4 192.0.2.10 192.0.2.20 51000 9092\r\n"), "v1"
+	case 1:
+		tl, k := tlvs()
+		return v2(0x20, 0x00, tl), "v2-local" + k
+	case 2:
+		b := append([]byte{0x20, 0x01, 0x0d, 0xb8, 0, 0, 0, 0, 0, 0, 0, 0, 0, 0, 0, 1, 0x20, 0x01, 0x0d, 0xb8, 0, 0, 0, 0, 0, 0, 0, 0, 0, 0, 0, 2}, 0xc7, 0x38, 0x23, 0x84)
+		tl, k := tlvs()
+		return v2(0x21, 0x21, append(b, tl...)), "v2-tcp6" + k
+	default:
+		b := []byte{192, 0, 2, 10, 192, 0, 2, 20, 0xc7, 0x38, 0x23, 0x84}
+		tl, k := tlvs()
+		return v2(0x21, 0x11, append(b, tl...)), "v2-tcp4" + k
+	}
 }
 
 // c11Acks0Appends: can this produce append anything (store reachable and at least one
